@@ -44,12 +44,17 @@ Definition read_opentype (s : scope) : outcome otdata :=
     '(offs, _) <- read_ttc_header c ;; Ok (Collection offs)
   else Err BadVersion.
 
+(* ReadArray::get_item on the offsets array: None beyond the end (the length test comes first, so a
+   huge index never becomes a unary number) *)
+Definition nth_safe {A} (l : list A) (i : Z) : option A :=
+  if (i <? 0) || (len l <=? i) then None else nth_error l (Z.to_nat i).
+
 (* OpenTypeFont::offset_table(index) *)
 Definition ot_member (s : scope) (d : otdata) (index : Z) : outcome offset_table :=
   match d with
   | Single ot => Ok ot
   | Collection offs =>
-      match nth_opt offs index with
+      match nth_safe offs index with
       | None => Err BadIndex
       | Some off =>
           s' <- scope_offset Debug s off ;;
